@@ -12,6 +12,56 @@ use tvmon::mondir::{MonCfg, MonDir, OpKind, OpPred};
 use tvmon::report::*;
 use tvmon::rng::Rng;
 
+/// Warmer registered with every reader of the stress stream: a monitor of the searcher
+/// generation mechanics (reader/warming.rs, core/searcher.rs SearcherGeneration).
+#[derive(Default)]
+struct WarmMon {
+    /// generation ids `warm()` was called with
+    warmed: Mutex<BTreeSet<u64>>,
+    /// generation ids of the searchers the reader thread currently holds
+    held: Mutex<BTreeSet<u64>>,
+    problems: Mutex<Vec<(String, Value)>>,
+    warm_calls: AtomicU64,
+    gc_calls: AtomicU64,
+}
+
+impl tantivy::Warmer for WarmMon {
+    fn warm(&self, searcher: &Searcher) -> tantivy::Result<()> {
+        self.warm_calls.fetch_add(1, Ordering::Relaxed);
+        let g = searcher.generation();
+        // the generation describes exactly the segments of the searcher it belongs to
+        let of_searcher: std::collections::BTreeMap<_, _> =
+            searcher.segment_readers().iter().map(|sr| (sr.segment_id(), sr.delete_opstamp())).collect();
+        if &of_searcher != g.segments() {
+            self.problems.lock().unwrap().push((
+                "warmer:generation-segments-differ-from-the-searcher".into(),
+                json!({"generation": g.generation_id(), "searcher": format!("{of_searcher:?}"), "generation_segments": format!("{:?}", g.segments())}),
+            ));
+        }
+        if !self.warmed.lock().unwrap().insert(g.generation_id()) {
+            self.problems.lock().unwrap().push(("warmer:generation-warmed-twice".into(), json!({"generation": g.generation_id()})));
+        }
+        Ok(())
+    }
+
+    fn garbage_collect(&self, live_generations: &[&tantivy::SearcherGeneration]) {
+        self.gc_calls.fetch_add(1, Ordering::Relaxed);
+        let live: BTreeSet<u64> = live_generations.iter().map(|g| g.generation_id()).collect();
+        // a searcher that is still held is a live generation: state kept for it must not be
+        // discarded (the held set only ever names searchers obtained before this call started:
+        // the call runs under the warming lock, a generation is tracked before it is warmed
+        // under that lock and published after)
+        let held = self.held.lock().unwrap().clone();
+        let missing: Vec<&u64> = held.difference(&live).collect();
+        if !missing.is_empty() {
+            self.problems.lock().unwrap().push((
+                "warmer:gc-does-not-list-the-generation-of-a-held-searcher".into(),
+                json!({"held_not_live": missing, "live": live}),
+            ));
+        }
+    }
+}
+
 #[derive(Clone)]
 struct Obs {
     reader: usize,
@@ -122,6 +172,7 @@ fn stress_case(case: u64, rng: &mut Rng, rep: &mut Report) {
     let states: Arc<RwLock<Vec<DocSetState>>> = Arc::new(RwLock::new(vec![DocSetState::new()]));
     let n_readers = rng.urange(1, 4);
     let recheck_count = Arc::new(AtomicU64::new(0));
+    let warm_stats = Arc::new((AtomicU64::new(0), AtomicU64::new(0), AtomicU64::new(0)));
     let held_total = Arc::new(AtomicU64::new(0));
     let overlap = Arc::new(AtomicU64::new(0));
     let index_main = ex.index.clone();
@@ -134,6 +185,7 @@ fn stress_case(case: u64, rng: &mut Rng, rep: &mut Report) {
             let states = states.clone();
             let hs = hs.clone();
             let recheck_count = recheck_count.clone();
+            let warm_stats = warm_stats.clone();
             let held_total = held_total.clone();
             let overlap = overlap.clone();
             let index_main = index_main.clone();
@@ -158,13 +210,22 @@ fn stress_case(case: u64, rng: &mut Rng, rep: &mut Report) {
                     };
                     let manual = flavour != 2;
                     let policy = if manual { ReloadPolicy::Manual } else { ReloadPolicy::OnCommitWithDelay };
-                    let reader: IndexReader = match index.reader_builder().reload_policy(policy).try_into() {
+                    let wm = Arc::new(WarmMon::default());
+                    let wm_dyn: Arc<dyn tantivy::Warmer> = wm.clone();
+                    let reader: IndexReader = match index
+                        .reader_builder()
+                        .reload_policy(policy)
+                        .warmers(vec![Arc::downgrade(&wm_dyn)])
+                        .num_warming_threads(1 + r % 2)
+                        .try_into()
+                    {
                         Ok(r) => r,
                         Err(e) => {
                             errors.lock().unwrap().push(("reader:create-failed".into(), json!(e.to_string())));
                             return;
                         }
                     };
+                    let mut last_generation = 0u64;
                     let mut held: Vec<Held> = vec![];
                     let recheck = |h: &Held, when: &str| {
                         // the held searcher must still show exactly the state it showed at capture
@@ -204,6 +265,19 @@ fn stress_case(case: u64, rng: &mut Rng, rep: &mut Report) {
                             }
                         }
                         let searcher = reader.searcher();
+                        {
+                            // generation mechanics: every published searcher was warmed first,
+                            // and the generations a reader hands out never go backwards
+                            let gen = searcher.generation().generation_id();
+                            warm_stats.2.fetch_add(1, Ordering::Relaxed);
+                            if !wm.warmed.lock().unwrap().contains(&gen) {
+                                errors.lock().unwrap().push(("warmer:searcher-published-before-it-was-warmed".into(), json!({"reader": r, "generation": gen})));
+                            }
+                            if gen < last_generation {
+                                errors.lock().unwrap().push(("warmer:generation-went-backwards".into(), json!({"reader": r, "generation": gen, "before": last_generation})));
+                            }
+                            last_generation = gen;
+                        }
                         let s1 = started.load(Ordering::SeqCst);
                         if s1 > d0 || s0 > d0 {
                             overlap.fetch_add(1, Ordering::Relaxed);
@@ -218,6 +292,7 @@ fn stress_case(case: u64, rng: &mut Rng, rep: &mut Report) {
                                     started_after: s1,
                                 });
                                 if rr.chance(1, 3) && held.len() < 12 {
+                                    wm.held.lock().unwrap().insert(searcher.generation().generation_id());
                                     held.push(Held { searcher, ids });
                                     held_total.fetch_add(1, Ordering::Relaxed);
                                 }
@@ -238,6 +313,10 @@ fn stress_case(case: u64, rng: &mut Rng, rep: &mut Report) {
                     for h in &held {
                         recheck(h, "after-writer-drop");
                     }
+                    errors.lock().unwrap().extend(wm.problems.lock().unwrap().drain(..));
+                    warm_stats.0.fetch_add(wm.warm_calls.load(Ordering::Relaxed), Ordering::Relaxed);
+                    warm_stats.1.fetch_add(wm.gc_calls.load(Ordering::Relaxed), Ordering::Relaxed);
+                    drop(wm_dyn);
                 })
                 .expect("spawn reader");
         }
@@ -342,6 +421,9 @@ fn stress_case(case: u64, rng: &mut Rng, rep: &mut Report) {
     rep.count("reader_observations", obs.len() as u64);
     rep.count("held_searchers", held_total.load(Ordering::Relaxed));
     rep.count("held_searcher_rechecks", recheck_count.load(Ordering::Relaxed));
+    rep.count("warmer_warm_calls", warm_stats.0.load(Ordering::Relaxed));
+    rep.count("warmer_gc_calls", warm_stats.1.load(Ordering::Relaxed));
+    rep.count("warmer_searchers_checked_against_warmed_set", warm_stats.2.load(Ordering::Relaxed));
     rep.count("observations_overlapping_a_commit", overlap.load(Ordering::Relaxed));
     rep.count(&format!("dir:{dk:?}"), 1);
     if overlap.load(Ordering::Relaxed) > 0 && distinct_seen.len() >= 2 {
